@@ -315,7 +315,7 @@ def check(run):
     if ferr:
         # never a silent default: the translator failing is a broken correspondence; the model comparison below
         # then uses the variant recorded by the last successful translation and says so
-        run.add_corr_break("G: switch translator: " + ferr)
+        run.add_corr_break("G: switch translator: " + ferr, shape=True)
         fx = current_switch()
         fdesc = "TRANSLATION FAILED (%s); variant of the last successful translation used: %s" % (ferr, fx)
         if fx is None:
